@@ -19,6 +19,8 @@ ap = argparse.ArgumentParser()
 ap.add_argument('prop'); ap.add_argument('label'); ap.add_argument('worktree'); ap.add_argument('patch'); ap.add_argument('demo')
 ap.add_argument('--checks', default=None); ap.add_argument('--tier', default='quick'); ap.add_argument('--needs', default='')
 ap.add_argument('--skip-suite', action='store_true')
+ap.add_argument('--checks-only', action='store_true', help='skip the demo / suite stage (keep the recorded results)')
+ap.add_argument('--scratch', default=None, help='apply the patch in this scratch clone of /repo instead of /repo itself (VERIF_REPO / VERIF_OUT are set)')
 a = ap.parse_args()
 checks = (a.checks or a.prop).split(',')
 env = dict(os.environ, PYTHONDONTWRITEBYTECODE='1')
@@ -30,24 +32,39 @@ def sh(cmd, cwd=None, timeout=3600):
 
 
 meta = {'property': a.prop, 'label': a.label, 'needs_to_manifest': a.needs, 'ran': []}
-assert sh('git status --porcelain', a.worktree)[1].strip() == '', 'worktree not clean'
-rc0, out0 = sh('/venv/bin/python %s %s' % (a.demo, a.worktree), a.worktree, 1800)
-meta['demo_clean'] = {'rc': rc0, 'tail': out0[-300:]}
-rc, out = sh('git apply %s' % a.patch, a.worktree)
-assert rc == 0, out
-try:
-  rc1, out1 = sh('/venv/bin/python %s %s' % (a.demo, a.worktree), a.worktree, 1800)
-  meta['demo_patched'] = {'rc': rc1, 'tail': out1[-300:]}
-  if not a.skip_suite:
-    rcs, outs = sh('/venv/bin/python -m pytest -q -p no:cacheprovider --timeout=900 --continue-on-collection-errors 2>&1 | tail -1', a.worktree, 3000)
-    meta['suite_patched'] = outs.strip()[-120:]
-finally:
-  sh('git checkout -- .', a.worktree)
-meta['confirmed'] = bool(rc0 == 0 and rc1 != 0 and (a.skip_suite or '74 passed' in meta.get('suite_patched', '')))
-print('demo clean rc=%s patched rc=%s suite=%s confirmed=%s' % (rc0, rc1, meta.get('suite_patched'), meta['confirmed']), flush=True)
-# run the checks against /repo with the patch
-assert sh('git status --porcelain', '/repo')[1].strip() == '', '/repo not clean'
-rc, out = sh('git apply %s' % a.patch, '/repo')
+old_meta = '/verif/seeded/%s-%s/meta.json' % (a.prop, a.label)
+if os.path.exists(old_meta):
+  om = json.load(open(old_meta))
+  for k in ('suite_patched', 'needs_to_manifest'):
+    if om.get(k) and not meta.get(k):
+      meta[k] = om[k]
+if a.checks_only:
+  for k in ('demo_clean', 'demo_patched', 'suite_patched', 'confirmed'):
+    if os.path.exists(old_meta) and k in om:
+      meta[k] = om[k]
+else:
+  assert sh('git status --porcelain', a.worktree)[1].strip() == '', 'worktree not clean'
+  rc0, out0 = sh('/venv/bin/python %s %s' % (a.demo, a.worktree), a.worktree, 1800)
+  meta['demo_clean'] = {'rc': rc0, 'tail': out0[-300:]}
+  rc, out = sh('git apply %s' % a.patch, a.worktree)
+  assert rc == 0, out
+  try:
+    rc1, out1 = sh('/venv/bin/python %s %s' % (a.demo, a.worktree), a.worktree, 1800)
+    meta['demo_patched'] = {'rc': rc1, 'tail': out1[-300:]}
+    if not a.skip_suite:
+      rcs, outs = sh('/venv/bin/python -m pytest -q -p no:cacheprovider --timeout=900 --continue-on-collection-errors 2>&1 | tail -1', a.worktree, 3000)
+      meta['suite_patched'] = outs.strip()[-120:]
+  finally:
+    sh('git checkout -- .', a.worktree)
+  meta['confirmed'] = bool(rc0 == 0 and rc1 != 0 and (a.skip_suite or '74 passed' in meta.get('suite_patched', '')))
+  print('demo clean rc=%s patched rc=%s suite=%s confirmed=%s' % (rc0, rc1, meta.get('suite_patched'), meta['confirmed']), flush=True)
+# run the checks against /repo (or a scratch clone of it) with the patch
+TARGET = a.scratch or '/repo'
+if a.scratch:
+  env['VERIF_REPO'] = a.scratch
+  env['VERIF_OUT'] = a.scratch + '-out'
+assert sh('git status --porcelain', TARGET)[1].strip() == '', TARGET + ' not clean'
+rc, out = sh('git apply %s' % a.patch, TARGET)
 assert rc == 0, out
 try:
   for c in checks:
@@ -62,13 +79,14 @@ try:
     if rcc == 2:
       print(outc[-1500:])
 finally:
-  sh('git checkout -- .', '/repo')
-  assert sh('git status --porcelain', '/repo')[1].strip() == ''
+  sh('git checkout -- .', TARGET)
+  assert sh('git status --porcelain', TARGET)[1].strip() == ''
 meta['detected_by'] = [r['cmd'] for r in meta['ran'] if r['exit'] == 1]
 dst = '/verif/seeded/%s-%s' % (a.prop, a.label)
 os.makedirs(dst, exist_ok=True)
-shutil.copy(a.patch, os.path.join(dst, 'patch.diff'))
-shutil.copy(a.demo, os.path.join(dst, 'demo.py'))
+if os.path.abspath(a.patch) != os.path.abspath(os.path.join(dst, 'patch.diff')):
+  shutil.copy(a.patch, os.path.join(dst, 'patch.diff'))
+  shutil.copy(a.demo, os.path.join(dst, 'demo.py'))
 notes = a.patch.replace('.patch.diff', '.notes.md')
 if os.path.exists(notes):
   shutil.copy(notes, os.path.join(dst, 'notes.md'))
